@@ -108,6 +108,64 @@ def obligations(tier):
                         lambda I, func=func, module=module, normalize=normalize, it=it, stubs=stubs: run_cp_exit(func, module, I, dict(return_errors=True, normalize_factors=normalize), it, stubs),
                         cp_exit_post(normalize), dict(order=N, normalize_factors=normalize, iteration_class=it),
                         "shapes ∧ normalisation contract on every loop-exit path", side_nonzero=True)
+    # ---- exit through a callback returning True (parafac is the only CP routine with a stopping callback)
+    for N in range(2, maxN + 1):
+        for normalize in (False, True):
+            for it in (0, 1):
+                add("_cp:parafac", f"N={N},normalize_factors={normalize},iteration-class={it},callback returns True", cp_setup(N),
+                    lambda I, normalize=normalize, it=it: run_cp_exit(_cp.parafac, _cp, I, dict(return_errors=True, normalize_factors=normalize, callback=lambda cp, err=None: True), it),
+                    cp_exit_post(normalize), dict(order=N, normalize_factors=normalize, iteration_class=it, callback="returns True"),
+                    "shapes ∧ normalisation contract on every loop-exit path", side_nonzero=True)
+    # ---- zero iteration budget with a user-supplied initialisation: the loop is never entered, the contract still holds
+    def cp_w_setup(N):
+        def setup(S):
+            n = dims(N)
+            return dict(_S=S, X=S.input("X", n), w=S.input("w", [R]), fs=[S.input(f"U{k}", [n[k], R]) for k in range(N)], n=n)
+        return setup
+    for N in range(2, maxN + 1):
+        for fn, func, module, stubs in cp_algos:
+            def call0(I, func=func):
+                S = I["_S"]
+                cp = func(I["X"], R if S.name == "sym" else I["fs"][0].shape[1], n_iter_max=0, init=CPTensor((I["w"], list(I["fs"]))), normalize_factors=True)
+                return dict(weights=cp.weights, factors=list(cp.factors))
+            def post0(S, I, r):
+                return ([("[zero budget] the returned CP tensor represents the supplied initialisation", SP.cp_to_tensor(S, r["weights"], r["factors"]), SP.cp_to_tensor(S, I["w"], I["fs"])),
+                         ("[zero budget] factor shapes", [tuple(S.shape(f)) for f in r["factors"]], [tuple(S.shape(f)) for f in I["fs"]])]
+                        + unit_norm_pairs(S, "[zero budget] normalize_factors=True", r["factors"]))
+            add(fn, f"N={N},normalize_factors=True,n_iter_max=0,user init", cp_w_setup(N), call0, post0, dict(order=N, normalize_factors=True, n_iter_max=0, init="CPTensor"),
+                "shapes ∧ normalisation contract on every loop-exit path", side_nonzero=True)
+    # ---- coupled matrix-tensor factorisation: both returned models are normalised and still represent the iterate
+    import tensorly.decomposition._cmtf_als as _cm
+    def cm_setup(S):
+        n = dims(3)
+        Jm = atom("Jm")
+        return dict(_S=S, X=S.input("X", n), Y=S.input("Y", [n[0], Jm]), fs=[S.input(f"U{k}", [n[k], R]) for k in range(3)], V=S.input("V", [Jm, R]))
+    def run_cm(I, normalize):
+        S = I["_S"]
+        cut = LoopCut(_cm.coupled_matrix_tensor_3d_factorization)
+        def init_stub(t, rank, **k):
+            if len(t.shape) == 3:
+                return CPTensor((None, list(I["fs"])))
+            return CPTensor((None, [I["fs"][0], (G.opaque_tensor("CINIT", [t.shape[1], rank]) if S.name == "sym" else __import__("numpy").ones((t.shape[1], rank)))]))
+        with stubbed(_cm, initialize_cp=init_stub):
+            st = cut.prefix(I["X"], I["Y"], R if S.name == "sym" else I["fs"][0].shape[1], normalize_factors=normalize)
+            st["tensor_cp"] = CPTensor((None, list(I["fs"])))
+            st["V"] = I["V"]
+            st["rec_errors"] = []
+            t, m, errs = cut.suffix(st)
+        return dict(tw=t.weights, tf=list(t.factors), mw=m.weights, mf=list(m.factors))
+    def cm_post(normalize):
+        def post(S, I, r):
+            out = [("tensor model represents the final iterate [[A, B, C]]", SP.cp_to_tensor(S, r["tw"], r["tf"]), SP.cp_to_tensor(S, None, I["fs"])),
+                   ("matrix model represents the final iterate A Vᵀ (weights carry the scale of both factors)", SP.cp_to_tensor(S, r["mw"], r["mf"]), S.einsum("ir,jr->ij", I["fs"][0], I["V"])),
+                   ("matrix model factor shapes", [tuple(S.shape(f)) for f in r["mf"]], [tuple(S.shape(I["fs"][0])), tuple(S.shape(I["V"]))])]
+            if normalize:
+                out += unit_norm_pairs(S, "tensor model", r["tf"]) + unit_norm_pairs(S, "matrix model", r["mf"])
+            return out
+        return post
+    for normalize in (False, True):
+        add("_cmtf_als:coupled_matrix_tensor_3d_factorization", f"normalize_factors={normalize}", cm_setup, lambda I, normalize=normalize: run_cm(I, normalize), cm_post(normalize),
+            dict(normalize_factors=normalize), "both returned models represent the final iterate ∧ normalisation contract", side_nonzero=True)
     # ====================================================================== Tucker / HOOI: orthonormal factors, core = projection, shapes (caps 0 and >= 1)
     def tk_setup(N):
         def setup(S):
@@ -154,6 +212,28 @@ def obligations(tier):
         for cap in (0, 1):
             add("_tucker:tucker", f"N={N},{'n_iter_max=0 (svd init)' if cap == 0 else 'after a sweep (cap or break)'}", tk_setup(N), lambda I, cap=cap: run_tucker(I, cap), tucker_post,
                 dict(order=N, cap=cap), "orthonormal factors ∧ core ≡ projection ∧ shapes/ranks", assumptions=tk_pre(N))
+    # ---- Tucker with fixed factors given in any order: every returned factor sits at its own mode
+    from tensorly.tucker_tensor import TuckerTensor
+    def tkf_setup(N):
+        def setup(S):
+            n, r = dims(N), dims(N, "r")
+            return dict(_S=S, X=S.input("X", n), core=S.input("G", r), fs=[S.input(f"U{k}", [n[k], r[k]]) for k in range(N)], n=n, r=r)
+        return setup
+    for N in range(3, maxN + 1):
+        for fixed in ([N - 1, 0], [1, 0], [0, N - 1]):
+            def call(I, fixed=fixed, N=N):
+                S = I["_S"]
+                rank = [I["r"][k] for k in range(N) if k not in fixed] if S.name == "sym" else [I["fs"][k].shape[1] for k in range(N) if k not in fixed]
+                with stubbed(_tk, svd_interface=make_svd_stub(S, None)):
+                    t = _tk.tucker(I["X"], rank, fixed_factors=list(fixed), n_iter_max=0, init=(I["core"], list(I["fs"])))
+                return dict(core=t.core, factors=list(t.factors))
+            def post(S, I, r, fixed=fixed, N=N):
+                out = [(f"factor {k} has shape (n_k, r_k)", tuple(S.shape(r["factors"][k])), tuple(S.shape(I["fs"][k]))) for k in range(N)]
+                out += [(f"fixed factor {m} is returned at mode {m}", r["factors"][m], I["fs"][m]) for m in fixed]
+                out.append(("core shape ≡ ranks", tuple(S.shape(r["core"])), tuple(S.shape(f)[1] for f in I["fs"])))
+                return out
+            add("_tucker:tucker", f"N={N},fixed_factors={fixed} (zero budget)", tkf_setup(N), call, post, dict(order=N, fixed_factors=fixed), "fixed factors keep their modes, in any listing order",
+                assumptions=lambda I: [I["r"][k] <= I["n"][k] for k in range(len(I["n"]))])
     # ====================================================================== TT-SVD / TT-matrix / TR-SVD: shapes, boundary ranks, left-orthogonality, conformance
     def tt_setup(N):
         def setup(S):
